@@ -1016,7 +1016,63 @@ def no_process_state(ctx):
                 if any(w in txt for w in ("lru_cache", "functools.cache", "cached_property")) or txt in ("cache", "cache()"):
                     bad += 1
                     ctx.violation(rule, f"{f.qualname}|memoised", f.loc(d), "a memoising decorator keeps results across calls: arrays are keyed by identity or not hashable at all, objects by identity - results computed for earlier data (or an earlier object at the same address) are returned later", found=txt[:60])
+    # a mutable object created in a CLASS body is one object shared by every instance (and subclass): changing it in place
+    # through self / cls is state that a fit of ONE object leaves for all others (a memo of costs declared as `_memo = {}`)
+    n_cattrs = 0
+    for cls_ in ctx.P.classes.values():
+        if "/tests/" in cls_.module.relpath or cls_.module.relpath.startswith("spec/"):
+            continue
+        cattrs = {}
+        for st in cls_.node.body:
+            if isinstance(st, (ast.Assign, ast.AnnAssign)) and st.value is not None and _is_mutable_ctor(st.value):
+                for t in (st.targets if isinstance(st, ast.Assign) else [st.target]):
+                    if isinstance(t, ast.Name):
+                        cattrs[t.id] = st
+        if not cattrs:
+            continue
+        n_cattrs += len(cattrs)
+        users = [cls_] + [c for c in ctx.P.subclasses(cls_, strict=True)]
+        for name_, decl in cattrs.items():
+            # an __init__ of the class that binds a fresh object to the same name on the instance shadows the shared one
+            init_ = cls_.methods.get("__init__")
+            rebinds = init_ is not None and any(isinstance(n, ast.Assign) and any(isinstance(t, ast.Attribute) and isinstance(t.value, ast.Name) and t.value.id == self_name(init_) and t.attr == name_ for t in n.targets) for n in ast.walk(init_.node))
+            if rebinds:
+                continue
+            for u in users:
+                for m in u.methods.values():
+                    owners = {self_name(m), "cls", cls_.name, u.name}
+
+                    def is_shared(x):
+                        if isinstance(x, ast.Attribute) and x.attr == name_:
+                            v = x.value
+                            if isinstance(v, ast.Name) and v.id in owners:
+                                return True
+                            if isinstance(v, ast.Call) and isinstance(v.func, ast.Name) and v.func.id == "type":
+                                return True
+                        return False
+
+                    hit = None
+                    for n in ast.walk(m.node):
+                        if isinstance(n, ast.Call) and isinstance(n.func, ast.Attribute) and n.func.attr in _MUTATORS and is_shared(n.func.value):
+                            hit = n
+                        elif isinstance(n, (ast.Assign, ast.AugAssign, ast.AnnAssign)):
+                            for t in (n.targets if isinstance(n, ast.Assign) else [n.target]):
+                                if isinstance(t, ast.Subscript) and is_shared(t.value):
+                                    hit = n
+                                elif isinstance(n, ast.AugAssign) and is_shared(t):
+                                    hit = n
+                        elif isinstance(n, ast.Delete) and any(isinstance(t, ast.Subscript) and is_shared(t.value) for t in n.targets):
+                            hit = n
+                        if hit is not None:
+                            break
+                    if hit is not None:
+                        bad += 1
+                        ctx.violation(rule, f"{cls_.qualname}|class-attribute:{name_}", m.loc(hit), f"`{name_}` is a mutable object created in the class body - ONE object shared by all instances - and {u.name}.{m.name} changes it in place: what one fitted object stores there is read by every other (results of another object's data)", found=f"{name_} = {norm_src(decl.value)[:30]} in class {cls_.name}; {norm_src(hit)[:70]}", expected=f"self.{name_} = ... in __init__ / _fit (one object per instance)")
+                        break
+                else:
+                    continue
+                break
     ctx.stats["constructs"] = ctx.stats.get("constructs", 0) + n_funcs
     if not bad:
-        ctx.holds(rule, "package", "skchange/", f"{n_funcs} functions, {n_defaults} default values and {n_globals} module-level mutable objects inspected: no mutable default changed in place, no module-level object changed from a function, no memoised function")
+        ctx.holds(rule, "package", "skchange/", f"{n_funcs} functions, {n_defaults} default values, {n_cattrs} mutable class attributes and {n_globals} module-level mutable objects inspected: no mutable default changed in place, no module-level object changed from a function, no memoised function")
     ctx.expect_min(rule, n_funcs, 150)
